@@ -211,7 +211,7 @@ func TestVerifC07Large(t *testing.T) {
 	var rc vc07LargeReplay
 	if r.ReplayCase(&rc) {
 		if rc.Large == "" {
-			t.Skip("replay case belongs to another part")
+			return
 		}
 		p := byName[rc.Large]
 		u := vc07NewUniverse(p.Name, p.Prevs)
@@ -225,6 +225,9 @@ func TestVerifC07Large(t *testing.T) {
 		r.States(res.checked)
 		r.Transitions(res.steps)
 		return
+	}
+	if os.Getenv("VERIF_REPLAY") != "" {
+		return // the replay case belongs to the other part
 	}
 
 	r.Rule("structured large pairs with the shipped constants (PageSize 512, 1024 IBLT buckets): one side 1300 behind; disjoint branches of 600 " +
